@@ -50,7 +50,7 @@ RULE = (
     "epoch, with an estimate (commanded pointing), a primary TargetAgent, 0-2 background TargetAgents, a prior "
     "boresight / last-tasked time and a noise vector; all of it enumerated from the lattices in `bounds`: (A) sensor "
     "kind x host x az/el mask x range limits x target positions in the sensor's own horizon frame (azimuth fill, both "
-    "sides of every mask end, north seam, horizon, zenith, range limits +-1 m); (B) FoV shape x pointing (north seam, "
+    "sides of every mask end, north seam, horizon, zenith, range limits +-1 m); (B) FoV shape x pointing (north seam, south seam, quadrant edges, "
     "near zenith) x primary offset at {0.5,0.98,1.02} of the half widths x two background targets at 0.98/1.02; (C) "
     "slew rate x prior boresight (set, or carried over from a real previous tasking, or never tasked) x slew angle at "
     "{0,0.5,0.98,1.02,2} of rate*dt and 179.9 deg, with background targets; (D) radar parameters one at a time x target "
@@ -919,11 +919,12 @@ def _offset_rect(az_p, el_p, daz, del_):
 
 def _cases_B(tier, seed, fov):
     ph = _phase(seed, 2)
-    az_ps = [0.0, 0.2, 359.9, 123.4 + ph]
+    # north seam, the SOUTH seam (where an azimuth wrapped to (-180, 180] jumps) and the quadrant edges, plus a fill
+    az_ps = [0.0, 0.2, 359.9, 123.4 + ph, 179.9, 180.0, 180.1, 90.0, 270.0]
     el_ps = [20.0, 84.0] if fov[0] == "rect" else [20.0, 88.5]
     fracs = [0.5, 0.98, 1.02]
     if tier == "thorough":
-        az_ps += [90.0, 180.0, 270.0, 359.999, 1e-5]
+        az_ps += [359.999, 1e-5, 179.999, 180.001, 89.9, 269.9, 45.0, 225.0]
         el_ps += [45.0, 1.5]
         fracs += [0.999, 1.001, 1.5]
     out = []
@@ -977,7 +978,7 @@ def _run_B(res, item):
                   _fov_target(W, az_p, el_p, ("conic", 1.02 * fov[1] / 2.0, how[2] + 135.0), 1020.0)]
         case = {"tgt": tgt, "est": est, "bg": bg, "prior": (W.initial_boresight, 0.0),
                 "id": {"az_p": az_p, "el_p": el_p, "frac": f, "how": list(how), "fov": fov_id,
-                       "straddles_north": az_p < 15.0 or az_p > 345.0}}
+                       "straddles_north": az_p < 15.0 or az_p > 345.0, "straddles_south": 165.0 < az_p < 195.0}}
         attempt(res, W, case, item, "B")
 
 
